@@ -13,7 +13,7 @@ from mpsa.report import Checker
 
 from . import server
 from .c09 import clean_value, guard_cfg
-from .common import SERVLET, WORKER, build_cfg, make_fallible, tuple_item
+from .common import SERVLET, WORKER, build_cfg, is_isinstance, make_fallible, tuple_item
 from .fresh import fresh_chain
 
 
@@ -179,22 +179,32 @@ def run(ck: Checker):
 
     rinit, rprobs = c15.nested_rewrap_problems(ck)
     ck.ob('C04-7', rinit, (rinit.node.lineno, 'EnsembleError members'), not rprobs, '; '.join(rprobs) if rprobs else 'every nested BaseException member of an EnsembleError is re-wrapped before the next hop')
+    # ------------------------------------------------------------------ C04-8
+    from . import c02
+
+    with ck.as_rule('C04-8', 'a failed member is reported for its own request exactly once: the ensemble catalog obligations C02-5 (lookup by this message\'s id, one counter increment per answer, emit or completion test after every recorded answer, one catalog pop per emit)', minimum=6):
+        c02.check_ensemble(ck, 'C02-5')
     # ------------------------------------------------------------------ C04-4
     f = mod.func('Worker._start_batch')
     sc = Scope(f)
     cfg = build_cfg(f, ck.repo, make_fallible(sc))
     ck.analysed_func(f, cfg)
     fan = None
+    wrap_call = None
     for n in cfg.nodes:
-        if n.kind == 'for' and any(header_expr(k) is not None and any(method_of(c)[1] == 'put' and c.args and isinstance(c.args[0], ast.Tuple) and len(c.args[0].elts) == 2 and isinstance(c.args[0].elts[1], ast.Name) for c in calls_in(header_expr(k))) for k in cfg.nodes if n.id in k.loops):
-            # a loop that puts (u, err)
-            body = [k for k in cfg.nodes if n.id in k.loops]
-            for k in body:
-                for c in calls_in(header_expr(k)) if header_expr(k) is not None else []:
-                    if method_of(c)[1] == 'put' and c.args and isinstance(c.args[0], ast.Tuple) and isinstance(c.args[0].elts[1], ast.Name):
-                        pos = g_pos(cfg, k, c.args[0].elts[1].id)
-                        if pos:
-                            fan = (n, k, c)
+        if n.kind != 'for':
+            continue
+        for k in [k for k in cfg.nodes if n.id in k.loops]:
+            for c in calls_in(header_expr(k)) if header_expr(k) is not None else []:
+                if method_of(c)[1] == 'put' and c.args and isinstance(c.args[0], ast.Tuple) and len(c.args[0].elts) == 2 and isinstance(c.args[0].elts[0], ast.Name):
+                    pl = c.args[0].elts[1]
+                    if isinstance(pl, ast.Name) and g_pos(cfg, k, pl.id):
+                        fan = (n, k, c)
+                        rd = reaching_defs(cfg, pl.id, start=cfg.entry).get(k.id, frozenset())
+                        wrap_call = cfg.nodes[next(iter(rd))].ast.value
+                    elif isinstance(pl, ast.Call) and (dotted(pl.func) or '').endswith('RemoteException'):
+                        fan = (n, k, c)
+                        wrap_call = pl
     ck.need(fan is not None, f'{f.key}: error fan-out loop not found')
     ln, pn, pc = fan
     probs = fresh_chain(cfg, pn, pc.args[0].elts[0].id, sources=('self._get_input_batch',), params=set(f.params()))
@@ -205,7 +215,15 @@ def run(ck: Checker):
             probs.append(f'the fan-out iterates `{it.id}`, which is not (only) the id list dequeued for this batch')
     else:
         probs.append(f'the fan-out iterates `{norm_text(it)}`, not the id list of this batch')
-    ck.ob('C04-4', f, pc, not probs, '; '.join(sorted(set(probs))) if probs else f'the error is put once for every id in `{norm_text(it)}`, the list dequeued for this very batch')
+    # what is wrapped is the failure of this batch itself -- the object the `isinstance(<outcome>, Exception)` test looked
+    # at -- not a copy or a re-creation of it (which keeps type and args but has no __traceback__ / __cause__)
+    tested = [ii[0] for n_ in cfg.nodes if n_.kind == 'test' for ii in [is_isinstance(n_.ast)] if ii and 'Exception' in ii[1]]
+    # ... or through a flag: `failed = isinstance(yy, Exception)` ... `if failed:`
+    tested += [ii[0] for n_ in cfg.nodes if n_.kind == 'stmt' and isinstance(n_.ast, ast.Assign) for ii in [is_isinstance(n_.ast.value)] if ii and 'Exception' in ii[1]]
+    warg = wrap_call.args[0] if wrap_call is not None and wrap_call.args else None
+    if not (isinstance(warg, ast.Name) and warg.id in tested):
+        probs.append(f'the members of a failed batch receive `{norm_text(wrap_call)[:60]}`, which does not wrap the batch\'s own exception object `{tested[0] if tested else "?"}`: a copy / re-created exception has no traceback and no cause — a caller that gets it without a process hop sees no failure site')
+    ck.ob('C04-4', f, pc, not probs, '; '.join(sorted(set(probs))) if probs else f'the error — the batch\'s own exception object, wrapped — is put once for every id in `{norm_text(it)}`, the list dequeued for this very batch')
     # ------------------------------------------------------------------ C04-5
     for name in server.SERVERS:
         server.check_delivery(ck, 'C04-5', server.discover(ck.repo, name))
